@@ -1164,7 +1164,7 @@ def search(ctx, hints):
         s, kind, opts = gens_sites.case(ctx.rng)
         tried += 1
         f = oracle_case(s, opts)
-        if f:
+        if f and classify(f, _open_known()) is None:
             fails.append(f)
     return {'failures': fails[:1], 'tried': tried}
 
